@@ -40,7 +40,7 @@ PROPS = {
 }
 
 PROPS["C06"] = dict(
-    modules=["contracts.C06_clean"],
+    modules=["contracts.C06_clean", "contracts.C19_status"],
     decided=["every path through the deleting functions that reaches remove/rmdir/DELETE satisfies the ownership guard "
              "(state-free, so it holds for every database content and therefore every history)"],
     undecided=["time of check / time of use between refreshed() and remove() (a concurrent writer is outside the model)"],
